@@ -36,7 +36,9 @@ HOSTILE = ['"abc', "'", '"""', "(", ")", "[", "]", "1...", "...", "…", "--1", 
            "\u00b2", "7\u00b3", "\u2460", "\u0663\u0664", "9" * 4301,
            # multi-byte encodings the stored bytes do not fit; a date layout naming a part twice; a rule continued on
            # a second line
-           "utf-16", "utf-32", "DD.DD", "hh:hh", "\\\nid < 3"]
+           "utf-16", "utf-32", "DD.DD", "hh:hh", "\\\nid < 3",
+           # nested deeper than the regular expression parser recurses
+           "(" * 600 + "a" + ")" * 600]
 RULE_TEXT = (
     "fault enumeration: sweep of (base CID or data table, row, column, hostile value) single-cell replacements (see "
     "sweep_note) plus seeded scenarios with two hostile cells at once or one container fault (truncate / bitflip / "
